@@ -1,5 +1,6 @@
 import TxdbusModel.Proofs.Intro.Final
 import TxdbusModel.Proofs.Intro.Sorted
+import TxdbusModel.Proofs.Intro.Registry
 /-!
 # C15 - Introspection XML round-trips every interface definition
 
@@ -157,6 +158,63 @@ theorem known_reused_unless_replaced {path : Str} {exported : List (Str × List 
         · exact Or.inr h)
       exact ⟨id, recIface d, e1, e2, e3, recIface_same (hall d (List.mem_of_getElem? hd)), e4⟩
 
+/-! ## the process-wide table across the operations of one process (Intro/Registry.lean)
+
+"Interfaces already known locally are reused": an interface is known locally when it was declared in this
+process - by a `DBusInterface(...)` call that returned - or read from XML by an earlier parse.  A declaration that
+RAISED (a non-member argument, a member whose signature makes `genCompleteTypes` raise, at whatever position of
+the member list) declared nothing. -/
+
+/-- **C15, table, one failed declaration.**  When the member loop of `DBusInterface.__init__` raises, the caller
+gets that exception and the process - its objects and `knownInterfaces` - is exactly what it was, whether or not
+registration was asked for. -/
+theorem failed_construction_leaves_registry (w : Proc) (name : Str) (args : List CtorArg) (register : Bool)
+    {e : Err} (h : ctorLoop (Interface.new name) args = .error e) :
+    w.construct name args register = (.error e, w) :=
+  construct_error h
+
+/-- **C15, table, invariant over histories.**  After ANY history of one process - declarations that complete
+or raise, registering or `noRegister`, parses of arbitrary event sequences that reach the end or are ended by an
+exception - every entry of `knownInterfaces` was there at the start, or some operation of the history made
+its name known: a registering declaration that COMPLETED, or a parse of a document with an `<interface>` element
+of that name.  (No entry ever stems from a declaration that raised or asked not to be registered.) -/
+theorem registry_holds_only_declared_or_parsed (w : Proc) (ops : List ProcOp) {name : Str} {id : Nat}
+    (hk : kget? (w.runAll ops).known name = some id) :
+    kget? w.known name = some id ∨ ∃ op ∈ ops, op.MakesKnown name :=
+  runAll_known ops w hk
+
+/-- **C15, round trip after failed declarations.**  Whatever declarations raised (or were made with
+`noRegister`) earlier in the process - any number, any member lists, under any names, the names of the object's
+own interfaces included - the round trip of a declared object behaves exactly as the round-trip theorems say for
+the table `w.known` the process had before them: the parse did what `World.parseBlocks` prescribes on that table,
+and for distinct names that are fresh in it (or with replacement) the returned objects hold the declared
+definitions. -/
+theorem roundtrip_after_failed_declarations {path : Str} {exported : List (Str × List Cached)} {cs : List Cached}
+    (hobj : exportedGet? exported path = some cs) (hdecl : Declared cs)
+    (w : Proc) (ops : List ProcOp) (hops : ∀ op ∈ ops, op.DeclaresNothing) (replace : Bool) :
+    ∃ evs st rs, generate path exported = .ok (some evs) ∧
+      getInterfaces (w.runAll ops).heap (w.runAll ops).known replace evs = .ok st ∧
+      SameDefinitions (decl cs) rs ∧
+      st.world = World.parseBlocks (!replace) ⟨(w.runAll ops).heap, w.known, []⟩ rs ∧
+      (((decl cs).map (·.name)).Nodup →
+        (replace = true ∨ ∀ d ∈ decl cs, kget? w.known d.name = none) → st.result = rs.map some) := by
+  have hknown := runAll_declaresNothing ops w hops
+  obtain ⟨hcoh, hwf⟩ := hdecl.wf
+  obtain ⟨evs, st, h1, h2, h3⟩ := parse_generated hobj hcoh hwf (w.runAll ops).heap (w.runAll ops).known replace
+  have hall : ∀ i ∈ decl cs, i.WF := by
+    intro i hi
+    rcases List.mem_append.mp hi with hi | hi
+    · obtain ⟨c, hc, rfl⟩ := List.mem_map.mp hi
+      exact hwf c hc
+    · exact std_wf i hi
+  refine ⟨evs, st, _, h1, h2, sameDefinitions_recIface _ hall, ?_, ?_⟩
+  · rw [← hknown]; exact h3
+  · intro hnames hfresh
+    exact fresh_result hnames (w.runAll ops).heap (w.runAll ops).known (!replace)
+      (by rcases hfresh with h | h
+          · exact Or.inl (by simp [h])
+          · exact Or.inr (by rw [hknown]; exact h)) h3
+
 /-- **Text/event boundary.**  No attribute value written by `_getXml` for a definition with valid names
 (characters of `if_re` / `mbr_re`, generated table) and signatures from the type grammar, none written for the
 three standard interfaces, and no object path (characters of `invalid_obj_path_re`'s allowed set) contains a
@@ -237,6 +295,68 @@ theorem std_name_collision_witness :
     omSummary false = ([(omName, 2), ("org.freedesktop.DBus.Introspectable".toList, 0),
                         ("org.freedesktop.DBus.Peer".toList, 0), (omName, 2)], 2) := by decide
 
+/-! ## witness: registering BEFORE the member loop violates the statement -/
+
+/-- the member loop keeping what it had built when an exception ended it -/
+def ctorLoopKeep (i : Interface) : List CtorArg → Interface × Option Err
+  | [] => (i, none)
+  | .method m :: r =>
+    match i.addMethod m with
+    | .error e => (i, some e)
+    | .ok i' => ctorLoopKeep i' r
+  | .signal s :: r =>
+    match i.addSignal s with
+    | .error e => (i, some e)
+    | .ok i' => ctorLoopKeep i' r
+  | .property p :: r => ctorLoopKeep (i.addProperty p) r
+  | .other :: _ => (i, some .notMember)
+
+/-- NOT the code: `__init__` with `self.knownInterfaces[name] = self` moved before the `for x in args` loop -
+the object is in the table (and therefore stays alive) with whatever the loop managed to add -/
+def Proc.constructRegisterFirst (w : Proc) (name : Str) (args : List CtorArg) : Proc :=
+  ⟨w.heap ++ [(ctorLoopKeep (Interface.new name) args).1], kset w.known name w.heap.length⟩
+
+def pName : Str := "org.a.P".toList
+
+/-- the exporter's complete definition: two methods, a signal -/
+def pOps : List DeclOp :=
+  [ .addMethod "Echo".toList [.basic .s] [.basic .s],
+    .addMethod "Query".toList [.array (.dict (.basic .s) .variant)] [.basic .u],
+    .addSignal "Tick".toList [.basic .u, .basic .t] ]
+
+/-- a local declaration under the same name that raises at its second argument (`'(is'`: unterminated struct) -/
+def pBadArgs : List CtorArg :=
+  [.method (Method.new "Echo".toList "s".toList "s".toList), .method (Method.new "Broken".toList "(is".toList []),
+   .method (Method.new "Query".toList "a{sv}".toList "u".toList)]
+
+def pExported : List (Str × List Cached) :=
+  match declare pName pOps with
+  | .ok c => [("/a".toList, [c])]
+  | .error _ => []
+
+/-- names of the methods and signals of the first interface a default-mode parse of the exporter's XML returns,
+on the given process -/
+def pRecovered (w : Proc) : List Str × List Str :=
+  match generate "/a".toList pExported with
+  | .ok (some evs) =>
+    match getInterfaces w.heap w.known false evs with
+    | .ok st =>
+      match st.result.filterMap id with
+      | i :: _ => (i.methods.map (·.name), i.signals.map (·.name))
+      | [] => ([], [])
+    | .error _ => ([], [])
+  | _ => ([], [])
+
+/-- **Witness (the class of C15p).**  The declaration raises in both variants.  With the code's order the process
+is unchanged and the round trip returns the declared members; with the registration moved before the loop the
+half-built interface (only `Echo`) stays in the table and a default-mode parse of the exporter's complete XML
+hands it out: `Query` and the signal `Tick` are lost. -/
+theorem register_first_model_violates :
+    ctorLoop (Interface.new pName) pBadArgs = .error (.split .typeError) ∧
+    pRecovered ((Proc.mk [] []).construct pName pBadArgs true).2
+      = (["Echo".toList, "Query".toList], ["Tick".toList]) ∧
+    pRecovered ((Proc.mk [] []).constructRegisterFirst pName pBadArgs) = (["Echo".toList], []) := by decide
+
 /-! ## the hypotheses are satisfiable; concrete evaluation of the models -/
 
 /-- a declared interface: containers, a dict entry, nested structs, all access modes, overwritten and deleted
@@ -291,6 +411,25 @@ example : sampleSummary.take 2 =
     [([("Foo".toList, 2, 0), ("a_1".toList, 1, 2)], [0, 3], ["readwrite".toList, "read".toList]),
      ([], [], [])] ∧ sampleSummary.length = 2 + stdIfaces.length := by decide
 
+/-- a history with declarations that raise (a non-member argument first / a malformed signature last), one made
+with `noRegister` and none that registers: every operation `DeclaresNothing` -/
+example : ∀ op ∈ [ProcOp.construct pName pBadArgs true, .construct pName [.other] true,
+                   .construct pName [.method (Method.new "Echo".toList "s".toList "s".toList)] false,
+                   .construct "x.y".toList [.signal (Signal.new "S".toList "a".toList)] false],
+    op.DeclaresNothing := by
+  intro op hop
+  simp only [List.mem_cons, List.not_mem_nil, or_false] at hop
+  rcases hop with rfl | rfl | rfl | rfl
+  · exact Or.inr ⟨_, (by decide : ctorLoop (Interface.new pName) pBadArgs = .error (.split .typeError))⟩
+  · exact Or.inr ⟨.notMember, rfl⟩
+  · exact Or.inl rfl
+  · exact Or.inl rfl
+
+/-- a registering declaration that completes makes its name known, and so does a parse -/
+example : (ProcOp.construct pName [.property (Property.new "P".toList "i".toList true false .true)] true).MakesKnown pName ∧
+    (ProcOp.parse false [.start kInterface [(kName, pName)]]).MakesKnown pName :=
+  ⟨⟨rfl, rfl, _, rfl⟩, _, List.mem_cons_self, _, rfl, by decide⟩
+
 example : ∃ i : Interface, i.ValidNames ∧ i.methods.length = 1 :=
   ⟨⟨"org.a.B".toList, [⟨"Foo".toList, 1, 0, "a{sv}".toList, []⟩], [], []⟩,
    ⟨by decide, (fun m hm => by
@@ -309,5 +448,9 @@ example : ∃ i : Interface, i.ValidNames ∧ i.methods.length = 1 :=
 #print axioms xml_cache_coherent
 #print axioms members_sorted
 #print axioms std_name_collision_witness
+#print axioms failed_construction_leaves_registry
+#print axioms registry_holds_only_declared_or_parsed
+#print axioms roundtrip_after_failed_declarations
+#print axioms register_first_model_violates
 
 end Txdbus.Intro
